@@ -414,6 +414,15 @@ func main() {
 	checkTrieCases(f, res, drv, cs, "large-batch")
 
 	checkTempTries(f, res, r)
+
+	// 5. state-diff sequences through core/state and core/deprecatedstate
+	checkStateCases(f, res, drv, directedStateCases(), "state-directed")
+	var scs []*StateCase
+	for i := 0; i < f.Scale(300, 6000); i++ {
+		rr := r.Fork(uint64(3_000_000 + i))
+		scs = append(scs, genStateCase(rr, rr.Range(1, 6)))
+	}
+	checkStateCases(f, res, drv, scs, "state-random")
 	lib.Finish(f, res)
 }
 
@@ -432,6 +441,13 @@ func runReplay(f lib.Flags, res *lib.Result, drv *lib.Driver) {
 	switch body.Kind {
 	case "trie":
 		checkTrieCases(f, res, drv, []*TrieCase{body.Trie}, "replay")
+	case "state":
+		var sc StateCase
+		if err := json.Unmarshal(body.State, &sc); err != nil {
+			res.Note("replay: %v", err)
+			return
+		}
+		checkStateCases(f, res, drv, []*StateCase{&sc}, "replay")
 	case "temptrie":
 		var n int
 		_ = json.Unmarshal(body.State, &n)
